@@ -31,7 +31,9 @@ pub fn blocks(thorough: bool) -> Vec<Block> {
         b.push(Block::new(Universe::new("U_adv(A_gcm)", A_GCM, 2, 1, false), class_cfgs(&[0]), "64 class subsets"));
         b.push(Block::new(u_prefix_suffix(), class_cfgs(&[0]), "64 class subsets"));
         b.push(Block::new(Universe::new("U_i{U+0130,a,-,1}", &["\u{130}", "a", "-", "1"], 2, 2, false), class_cfgs(&[I, I | R]), "64 class subsets x {i, i+r} (test cases that keep their upper-case form)"));
+        b.push(Block::new(u_corpus("U_large_cls", verif_seed() + 5, 500, &["a", "1", "-", "\u{663}"], (8, 14), (3, 6)), vec![Cfg::new(D), Cfg::new(W), Cfg::new(D | NW), Cfg::new(D | W | R)], "d, w, d+W, d+w+r (corpus of large sets)"));
     } else {
+        b.push(Block::new(u_corpus("U_large_cls", verif_seed() + 5, 20_000, &["a", "1", "-", "\u{663}"], (8, 14), (3, 6)), class_cfgs(&[0]), "64 class subsets (corpus)"));
         b.push(Block::new(Universe::new("U_adv(A_gc)", A_GC, 2, 2, false), class_cfgs(&[0, R]), "64 class subsets x {{}, r}"));
         b.push(Block::new(Universe::new("U_adv(A_gcm)", A_GCM, 3, 1, false), class_cfgs(&[0, R]), "64 class subsets x {{}, r}"));
         b.push(Block::new(Universe::new("U_adv(A_cls)", A_CLS, 2, 2, true), class_cfgs(&[0, I, X, G, E, R, I | R, X | G | E]), "64 class subsets x {{}, i, x, g, e, r, i+r, x+g+e}"));
